@@ -25,7 +25,10 @@ ASSUMPTIONS = [
 
 
 def proof_targets(tier):
-  return [('heapdict', None, True)]
+  return [('heapdict', None, True),
+          ('tbrmatchedmarkets', ['TBRMatchedMarkets.search_results',
+                                 'TBRMatchedMarkets.exhaustive_search',
+                                 'TBRMatchedMarkets.greedy_search'], False)]
 
 
 def monitor(tier, seed):
